@@ -1042,6 +1042,10 @@ func suiteVtt(R *runner, r *rng) {
 		win := &enc{}
 		encVdocIn(win, s)
 		o := &obs{Suite: "vttwritem", Group: "vtt.write", NT: len(d.Cues) > 0, Input: win.String(), Human: h}
+		if c%8 == 5 {
+			s.Items = withNilItems(s.Items, c/8) // the model input above is the list without the nil elements
+			R.count("vtt.write.nil_item")
+		}
 		var buf bytes.Buffer
 		var err error
 		p := safely(func() { err = s.WriteToWebVTT(&buf) })
